@@ -446,9 +446,10 @@ class Recorder:
         self.count += 1
         if self.count > IMPL_BUDGET:
             raise StepBudgetExceeded()
+        # the stochastic store lives in mutable instance objects: serialize the pre-state BEFORE the call
+        pre_sx = self.codec.state(state) if (self.want_pre and self.log is not None and self.codec is not None) else None
         new = self.orig(loglevel, state, instance, transition)
         if self.log is not None and self.codec is not None:
-            pre_sx = self.codec.state(state) if self.want_pre else None
             tr_sx = self.codec.transition(transition)
             new_sx = self.codec.state(new)
             self.log.append(sx(tr_sx, new_sx))
